@@ -10,6 +10,7 @@ package main
 // searched for the client address.
 
 import (
+	"runtime/debug"
 	"strconv"
 	"path/filepath"
 	"os/exec"
@@ -39,6 +40,7 @@ type c17Case struct {
 	Err      string `json:"err"`      // error kind injected
 	Err2     string `json:"err2,omitempty"`
 	Pos      int    `json:"pos"` // variant within the scenario (call index / data length)
+	Shape    string `json:"shape,omitempty"` // form in which a wrapper around the connection reports failed operations (see c17Shapes); "" = the bare connection
 }
 
 var c17Scenarios = []string{
@@ -149,6 +151,7 @@ func c17Addr(kind string) (remote string, ip net.IP, needles []string) {
 
 type c17Out struct {
 	key, msg string
+	note     string
 	classes  []string
 	nontriv  bool
 }
@@ -221,24 +224,31 @@ func c17Run(e *aEnv, h *c17Hook, c c17Case) c17Out {
 	}
 	conn := vconn.New(s)
 	conn.WaitLimit = 5 * time.Second
-	if ierr := vconn.MkErr(c.Err, op, conn.LocalAddr(), conn.RemoteAddr()); ierr != nil {
+	if ierr := c17ShapeErr(c.Shape, vconn.MkErr(c.Err, op, conn.LocalAddr(), conn.RemoteAddr())); ierr != nil {
 		for _, n := range needles {
 			if strings.Contains(ierr.Error(), n) {
 				out.nontriv = true
 				out.classes = append(out.classes, "error-text-carries-client-address")
+				if c17ShapeMulti(c.Shape) && !c17Anticipated(c.Err) {
+					out.classes = append(out.classes, "several-causes+unanticipated+carries-address")
+				}
 				break
 			}
 		}
 	}
 	e.cov.Arm(0, aPayload(9, reply, "c17reply"))
 	var hconn net.Conn = conn
+	if c.Shape != "" {
+		out.classes = append(out.classes, "shape:"+c.Shape)
+		hconn = c17ShapeConn{Conn: conn, shape: c.Shape}
+	}
 	if c.Scenario == "found-proxyheader-covert-reset" {
 		// the covert resets the connection at once; hold the RemoteAddr call Proxy makes between the
 		// dial and the header write until that has happened, so that the header write fails
 		e.cov.ArmReset(true)
 		defer e.cov.ArmReset(false)
 		calls := 0
-		hconn = c17HookConn{Conn: conn, hook: func() {
+		var hooked net.Conn = c17HookConn{Conn: conn, hook: func() {
 			calls++
 			if calls < 2 { // the handler's own early look at the address
 				return
@@ -249,8 +259,12 @@ func c17Run(e *aEnv, h *c17Hook, c c17Case) c17Out {
 			}
 			time.Sleep(3 * time.Millisecond) // let the RST arrive
 		}}
+		hconn = hooked
+		if c.Shape != "" {
+			hconn = c17ShapeConn{Conn: hooked, shape: c.Shape}
+		}
 	}
-	ok, pan, _ := e.aRunHandler(hconn, aPhantom(0, false), 40*time.Second)
+	ok, pan := c17RunHandler(e, hconn, aPhantom(0, false), 40*time.Second)
 	if found && c.Scenario != "found-covert-refused" && c.Scenario != "found-proxyheader-covert-reset" {
 		// the relay closes the source side asynchronously
 		conn.WaitClosed(5 * time.Second)
@@ -264,7 +278,18 @@ func c17Run(e *aEnv, h *c17Hook, c c17Case) c17Out {
 	}()
 	logs, drained := h.Collect(fmt.Sprintf("@@verif-c17-marker-%p@@", conn))
 	if pan != nil {
-		out.key, out.msg = "panic", fmt.Sprintf("handler panicked: %v", pan)
+		// A panic of the handler is not what C17 is about (C11 / C09 forbid panics): it is a violation
+		// here only if what a crash would print - the panic value - carries the client's address.
+		// Otherwise it is kept as a note with its stack and the case is not judged.
+		txt := fmt.Sprint(pan)
+		for _, n := range needles {
+			if strings.Contains(txt, n) {
+				out.key, out.msg = "leak:panic-text", fmt.Sprintf("handler panicked and the panic text contains the client address (%q): %.300s", n, txt)
+				return out
+			}
+		}
+		out.classes = append(out.classes, "handler-panicked:outside-this-property")
+		out.note = fmt.Sprintf("handler panicked (not judged by C17): %.3000s", txt)
 		return out
 	}
 	if !ok || !drained {
@@ -293,6 +318,11 @@ func c17Run(e *aEnv, h *c17Hook, c c17Case) c17Out {
 			if strings.HasPrefix(c.Scenario, "found-setdeadline") || c.Scenario == "noreg-setdeadline" {
 				kind = "setdeadline"
 			}
+			if c17ShapeMulti(c.Shape) {
+				kind += ":error-with-several-causes"
+			} else if c.Shape != "" {
+				kind += ":wrapped-error"
+			}
 			out.key = fmt.Sprintf("leak:%s:%s", site, kind)
 			out.msg = fmt.Sprintf("client address appears in the station's output at the default log level: %q", strings.TrimSpace(line))
 			return out
@@ -302,6 +332,27 @@ func c17Run(e *aEnv, h *c17Hook, c c17Case) c17Out {
 		out.classes = append(out.classes, "something-was-logged")
 	}
 	return out
+}
+
+// c17RunHandler runs the connection handler like aRunHandler does, and keeps the stack of a panic.
+func c17RunHandler(e *aEnv, conn net.Conn, phantom net.IP, limit time.Duration) (ok bool, panicked any) {
+	done := make(chan any, 1)
+	go func() {
+		defer func() {
+			if p := recover(); p != nil {
+				done <- fmt.Sprintf("%v\n%s", p, debug.Stack())
+				return
+			}
+			done <- nil
+		}()
+		e.cm.handleNewTCPConn(e.rm, conn, phantom)
+	}()
+	select {
+	case p := <-done:
+		return true, p
+	case <-time.After(limit):
+		return false, nil
+	}
 }
 
 func boolPtr(b bool) *bool { return &b }
@@ -325,6 +376,9 @@ func c17Check(t vh.Fataler, rec *vh.Rec, e *aEnv, h *c17Hook, c c17Case) {
 	o := c17Run(e, h, c)
 	rec.ClassN("ms:"+c.Scenario, time.Since(t0).Milliseconds())
 	rec.Case(o.nontriv, vh.Digest(c), c, o.classes...)
+	if o.note != "" {
+		rec.Note("%s [scenario %s, error kind %s, client %s]", o.note, c.Scenario, c.Err, c.Addr)
+	}
 	if o.key == "harness" {
 		t.Fatalf("harness problem: %s (case %+v)", o.msg, c)
 	}
